@@ -671,4 +671,16 @@ theorem okOf_lineCells (f : Fld) (ax : Nat) (i : List Nat) (c j : Nat) (hj : j <
 theorem lineCells_length (f : Fld) (ax : Nat) (i : List Nat) (c : Nat) : (lineCells f ax i c).length = f.mesh.nAt ax := by
   simp [lineCells]
 
+/-! ### a concrete field for the non-vacuity examples -/
+
+/-- 5×2 cells on [0,5]×[0,1], two components, cell (3,1) invalid, all directions open -/
+def exF : Fld :=
+  { mesh := { region := { pmin := [0, 0], pmax := [5, 1], dims := ["x", "y"], units := ["m", "m"],
+                          tol := 1/1000000000000 },
+              n := [5, 2], bc := "", subs := [] },
+    nvdim := 2,
+    data := ⟨[5, 2], fun i => [((i.getD 0 0 : Nat) : Rat) ^ 2, ((i.getD 1 0 : Nat) : Rat)]⟩,
+    valid := ⟨[5, 2], fun i => decide (i ≠ [3, 1])⟩, vdims := some ["x", "y"], vmap := [("x", "x"), ("y", "y")],
+    unit := none }
+
 end DFV.C04
